@@ -411,6 +411,16 @@ def make_regen(impl, rng, lcf):
     add an attacker, compromise / remove something in the old graph."""
     def regen(m, g):
         from maltoolbox.model import AttackerAttachment
+        from maltoolbox.attackgraph import Attacker
+        # the old graph had attackers (attached from the model or added directly): nothing of them may survive
+        try:
+            if rng.random() < 0.5:
+                g.add_attacker(Attacker(name='old', entry_points=[], reached_attack_steps=[]),
+                               entry_points=[n.id for n in g.nodes[:1]], reached_attack_steps=[n.id for n in g.nodes[:2]])
+            if rng.random() < 0.3 and m.attackers:
+                g.attach_attackers()
+        except Exception:
+            pass
         for _ in range(rng.randint(1, 3)):
             r = rng.random()
             try:
